@@ -1,5 +1,6 @@
 import ParryModel.Proto
 import ParryModel.C06.Walk
+import ParryModel.C06.Glue
 /-!
 C06 protocol handler `hfwalk3`: the trace of the cell walk of the 3-D height-field shape cast (which cells are handed to
 `hit_triangles`), model at `Float` against the real function run with a recording dispatcher, and an exact-`Rat` oracle
@@ -11,7 +12,7 @@ args: `ni nj hmin hmax sx sy sz  <iso3 pos12>  vx vy vz  hex hey hez  max_toi ta
 out:  `none` | `cells n i j i j …`
 -/
 namespace C06
-open Model Model.HW Proto
+open Model Model.SC Model.HW Model.SG Proto
 
 def quantF : Quant Float := ⟨fun x => (Float.floor x).toInt64.toInt, fun x => (Float.ceil x).toInt64.toInt, Float.ofInt⟩
 def quantQ : Quant Rat := ⟨Rat.floor, Rat.ceil, fun i => (i : Rat)⟩
@@ -112,8 +113,103 @@ def walkOracle (a : WArgs) (out : List String) : String :=
       | c :: _ => s!"fail entered-cell-never-tested cell={c.1},{c.2} (of {due.length} due, {tr.length} tested)"
   | _ => "fail unparsable-output"
 
+/-! ### `smsm3` / `smsm2`: the exit conditions of the GJK-route cast
+args: `<iso pos12> <vel12> <opts> velnorm <cTarget> <ddPlain> <ddRound> <cMax> shapes <shape1> <shape2>`
+(`0` | `1 p1 p2 n1 n2 dist` for a contact, `0` | `1 toi n w1 w2` for `directional_distance`); out: `none` | `some <hit>` -/
+
+def pOptG : P (Opts Float) := do let m ← pf; let t ← pf; let s ← pbool; let c ← pbool; pure ⟨m, t, s, c⟩
+def pContact {V} (pv : P V) : P (Option (Contact V Float)) := do
+  let k ← pnat
+  if k = 0 then pure none else do
+    let p1 ← pv; let p2 ← pv; let n1 ← pv; let n2 ← pv; let d ← pf; pure (some ⟨p1, p2, n1, n2, d⟩)
+def pDD {V} (pv : P V) : P (Option (Float × V × V × V)) := do
+  let k ← pnat
+  if k = 0 then pure none else do
+    let t ← pf; let n ← pv; let w1 ← pv; let w2 ← pv; pure (some (t, n, w1, w2))
+def pTaps {V} (pv : P V) : P (Taps V Float) := do
+  let vn ← pf; let c ← pContact pv; let d1 ← pDD pv; let d2 ← pDD pv; let cm ← pContact pv; pure ⟨vn, c, d1, d2, cm⟩
+
+def gstatus : Status → Nat
+  | .outOfIterations => 0 | .converged => 1 | .failed => 2 | .penetrating => 3
+def fhitG3 : Option (Hit (V3 Float) Float) → String
+  | none => "none"
+  | some h => s!"some {ff h.toi} {fv3 h.w1} {fv3 h.w2} {fv3 h.n1} {fv3 h.n2} {gstatus h.status}"
+def fhitG2 : Option (Hit (V2 Float) Float) → String
+  | none => "none"
+  | some h => s!"some {ff h.toi} {fv2 h.w1} {fv2 h.w2} {fv2 h.n1} {fv2 h.n2} {gstatus h.status}"
+
+/-- Clause oracle on the implementation's output, from the option semantics (exact `Rat`; `taps` = what the GJK layer
+answered): a hit lies in `[0, max]`; `PenetratingOrWithinTargetDist` only at start-up (`toi < 1e-5`), `Converged` only for
+`toi > 0`; with relative motion, `None` needs a reason (no GJK hit, a GJK time above `max`, or a start-up contact that is
+discarded: no contact at all, or `!stop_at_penetration` and not approaching); a start-up hit with `!stop_at_penetration`
+is approaching; a hit beyond start-up reports the GJK time; without relative motion: a hit iff `stop_at_penetration` and
+the shapes are within the target (a contact exists), at time 0. -/
+def smsmOracle (velNormZero : Bool) (o : Opts Float) (dd : Option Rat) (cT cM : Bool) (nvel : Option Rat) (out : List String) : String :=
+  if !(FloatIO.isFinite o.maxToi && FloatIO.isFinite o.target) then "skip options-outside-domain" else
+  let mx := q o.maxToi
+  let startup (t : Rat) : Bool := (o.cig || !o.stop) && decide (t < 1 / 100000)
+  match out with
+  | "panic" :: _ => "fail panic"
+  | ["unsupported"] => "skip unsupported"
+  | ["none"] =>
+    if velNormZero then (if cT ∧ o.stop then "fail none-but-standing-within-target" else "pass") else
+    (match dd with
+     | none => "pass"
+     | some t =>
+       if t > mx then "pass" else
+       if startup t then
+         (if !cM then "pass" else
+          match nvel with
+          | some nv => if !o.stop ∧ nv ≥ 0 then "pass" else "fail none-but-start-up-contact-is-due"
+          | none => "pass")
+       else "fail none-but-gjk-time-within-max")
+  | "some" :: t :: rest =>
+    match FloatIO.ofHex? t, rest.getLast? with
+    | some tf, some st =>
+      if !FloatIO.isFinite tf then "fail nonfinite-toi" else
+      let T := q tf
+      if T < 0 then "fail negative-toi" else
+      if T > mx then "fail toi-above-max" else
+      if velNormZero then
+        (if T ≠ 0 then "fail standing-pair-with-positive-toi" else if !o.stop then "fail standing-pair-hit-without-stop-at-penetration"
+         else if !cT then "fail standing-pair-hit-without-contact" else if st ≠ "3" then "fail standing-pair-status" else "pass")
+      else
+      (match dd with
+       | none => "fail hit-without-gjk-hit"
+       | some t =>
+         if T ≠ t then "fail toi-is-not-the-gjk-time" else
+         if startup t then
+           (if st ≠ "3" then "fail start-up-status" else
+            match nvel with
+            | some nv => if !o.stop ∧ nv ≥ 0 then "fail separating-start-up-contact-reported" else "pass"
+            | none => "fail start-up-hit-without-contact")
+         else if T = 0 then (if st = "3" then "pass" else "fail status-at-time-zero")
+         else (if st = "1" then "pass" else "fail status-converged-expected"))
+    | _, _ => "fail unparsable-output"
+  | _ => "fail unparsable-output"
+
 def handlerW (fn : String) : Option Handler :=
   match fn with
+  | "smsm3" => some {
+      model := fun a => run (do
+        let m ← piso3; let v ← pv3; let o ← pOptG; let t ← pTaps pv3
+        pure (fhitG3 (castSmSm3 m v t o))) a
+      oracle := fun a out => match run (do let m ← piso3; let v ← pv3; let o ← pOptG; let t ← pTaps pv3; pure (m, v, o, t)) a with
+        | some (_, v, o, t) =>
+          let dd := (if 0 < o.target then t.ddRound else t.ddPlain).map fun x => q x.1
+          let nvel := t.cMax.map fun c => (q3 c.n1).dot (q3 v)
+          smsmOracle (relEqZero t.velNorm) o dd t.cTarget.isSome t.cMax.isSome nvel out
+        | none => "skip bad-args" }
+  | "smsm2" => some {
+      model := fun a => run (do
+        let m ← piso2; let v ← pv2; let o ← pOptG; let t ← pTaps pv2
+        pure (fhitG2 (castSmSm2 m v t o))) a
+      oracle := fun a out => match run (do let m ← piso2; let v ← pv2; let o ← pOptG; let t ← pTaps pv2; pure (m, v, o, t)) a with
+        | some (_, v, o, t) =>
+          let dd := (if 0 < o.target then t.ddRound else t.ddPlain).map fun x => q x.1
+          let nvel := t.cMax.map fun c => (q2 c.n1).dot (q2 v)
+          smsmOracle (relEqZero t.velNorm) o dd t.cTarget.isSome t.cMax.isSome nvel out
+        | none => "skip bad-args" }
   | "hfwalk3" => some {
       model := fun a => (run pwargs a).map walkModel
       oracle := fun a out => match run pwargs a with
